@@ -279,7 +279,7 @@ func init() {
 		t := a[0].(Struct)
 		layout, ok := a[1].(Str).Concrete()
 		wall, ext := t[0].(*Term), t[1].(*Term)
-		if !ok || layout != "2006-01-02" || ext.IsConst() || !wall.IsConst() || wall.C != 0 {
+		if !ok || layout != "2006-01-02" || ext.IsConst() || !wall.IsConst() || wall.C>>30 != 0 { // only a sub-second part in wall: ext holds the seconds
 			return fallThrough
 		}
 		unix := BVBin(OpBVAdd, ext, BV(64, uint64(^uint64(62135596800)+1)))
